@@ -12,6 +12,6 @@ CONSTANTS
   Closes = FALSE
   Bug = "norearm"
 SYMMETRY Sym2
-INVARIANTS WaiterConsistent EventGoesToItsWaiter NoLostReadiness NoAddFailure RegisteredNothingWhenNoInterest
+INVARIANTS NoLostReadiness
 PROPERTY TimeoutIsolated
 CHECK_DEADLOCK FALSE
